@@ -89,6 +89,9 @@ struct Encoding<
     : EncodingIO<LogicalBuffer<BufferType, SizeType, IsUnbounded>> {
   using Type = LogicalBuffer<BufferType, SizeType, IsUnbounded>;
   using ValueType = std::remove_const_t<typename Type::ValueType>;
+  // The template parameter SizeType (the type of the size member) hides
+  // nop::SizeType: lengths are always encoded as nop::SizeType on the wire.
+  using WireSizeType = ::nop::SizeType;
   enum : std::size_t { Length = Type::Length };
 
   static constexpr EncodingByte Prefix(const Type& /*value*/) {
@@ -107,7 +110,7 @@ struct Encoding<
       element_size_sum += Encoding<ValueType>::Size(value[i]);
 
     return BaseEncodingSize(Prefix(value)) +
-           Encoding<SizeType>::Size(value.size()) + element_size_sum;
+           Encoding<WireSizeType>::Size(size) + element_size_sum;
   }
 
   static constexpr bool Match(EncodingByte prefix) {
@@ -118,15 +121,15 @@ struct Encoding<
   static constexpr Status<void> WritePayload(EncodingByte /*prefix*/,
                                              const Type& value,
                                              Writer* writer) {
-    const SizeType size = static_cast<SizeType>(value.size());
+    const WireSizeType size = static_cast<WireSizeType>(value.size());
     if (!IsUnbounded && size > Length)
       return ErrorStatus::InvalidContainerLength;
 
-    auto status = Encoding<SizeType>::Write(size, writer);
+    auto status = Encoding<WireSizeType>::Write(size, writer);
     if (!status)
       return status;
 
-    for (SizeType i = 0; i < size; i++) {
+    for (WireSizeType i = 0; i < size; i++) {
       status = Encoding<ValueType>::Write(value[i], writer);
       if (!status)
         return status;
@@ -138,20 +141,20 @@ struct Encoding<
   template <typename Reader>
   static constexpr Status<void> ReadPayload(EncodingByte /*prefix*/,
                                             Type* value, Reader* reader) {
-    SizeType size = 0;
-    auto status = Encoding<SizeType>::Read(&size, reader);
+    WireSizeType size = 0;
+    auto status = Encoding<WireSizeType>::Read(&size, reader);
     if (!status)
       return status;
     else if (!IsUnbounded && size > Length)
       return ErrorStatus::InvalidContainerLength;
 
-    for (SizeType i = 0; i < size; i++) {
+    for (WireSizeType i = 0; i < size; i++) {
       status = Encoding<ValueType>::Read(&(*value)[i], reader);
       if (!status)
         return status;
     }
 
-    value->size() = size;
+    value->size() = static_cast<SizeType>(size);
     return {};
   }
 };
@@ -165,6 +168,9 @@ struct Encoding<LogicalBuffer<BufferType, SizeType, IsUnbounded>,
     : EncodingIO<LogicalBuffer<BufferType, SizeType, IsUnbounded>> {
   using Type = LogicalBuffer<BufferType, SizeType, IsUnbounded>;
   using ValueType = std::remove_const_t<typename Type::ValueType>;
+  // The template parameter SizeType (the type of the size member) hides
+  // nop::SizeType: lengths are always encoded as nop::SizeType on the wire.
+  using WireSizeType = ::nop::SizeType;
   enum : std::size_t { Length = Type::Length };
 
   static constexpr EncodingByte Prefix(const Type& /*value*/) {
@@ -172,9 +178,10 @@ struct Encoding<LogicalBuffer<BufferType, SizeType, IsUnbounded>,
   }
 
   static constexpr std::size_t Size(const Type& value) {
-    const std::size_t size = value.size() * sizeof(ValueType);
-    return BaseEncodingSize(Prefix(value)) + Encoding<SizeType>::Size(size) +
-           size;
+    const std::size_t size =
+        static_cast<std::size_t>(value.size()) * sizeof(ValueType);
+    return BaseEncodingSize(Prefix(value)) +
+           Encoding<WireSizeType>::Size(size) + size;
   }
 
   static constexpr bool Match(EncodingByte prefix) {
@@ -185,11 +192,12 @@ struct Encoding<LogicalBuffer<BufferType, SizeType, IsUnbounded>,
   static constexpr Status<void> WritePayload(EncodingByte /*prefix*/,
                                              const Type& value,
                                              Writer* writer) {
-    const SizeType size = value.size();
+    const WireSizeType size = static_cast<WireSizeType>(value.size());
     if (!IsUnbounded && size > Length)
       return ErrorStatus::InvalidContainerLength;
 
-    auto status = Encoding<SizeType>::Write(size * sizeof(ValueType), writer);
+    auto status =
+        Encoding<WireSizeType>::Write(size * sizeof(ValueType), writer);
     if (!status)
       return status;
 
@@ -199,8 +207,8 @@ struct Encoding<LogicalBuffer<BufferType, SizeType, IsUnbounded>,
   template <typename Reader>
   static constexpr Status<void> ReadPayload(EncodingByte /*prefix*/,
                                             Type* value, Reader* reader) {
-    SizeType size_bytes = 0;
-    auto status = Encoding<SizeType>::Read(&size_bytes, reader);
+    WireSizeType size_bytes = 0;
+    auto status = Encoding<WireSizeType>::Read(&size_bytes, reader);
     if (!status) {
       return status;
     } else if ((!IsUnbounded && size_bytes > Length * sizeof(ValueType)) ||
@@ -208,8 +216,7 @@ struct Encoding<LogicalBuffer<BufferType, SizeType, IsUnbounded>,
       return ErrorStatus::InvalidContainerLength;
     }
 
-    const SizeType size = size_bytes / sizeof(ValueType);
-    value->size() = size;
+    value->size() = static_cast<SizeType>(size_bytes / sizeof(ValueType));
     return reader->Read(value->begin(), value->end());
   }
 };
